@@ -92,13 +92,13 @@ macro_rules! output_merge_heap {
 //@ harness: c14_out_merge_redeem_script class=B tier=quick bound="script of exactly 2 symbolic bytes"
 //@ clause: Output::merge: redeem_script present in exactly one operand is present in the result whichever operand is merged into which; nothing else disturbed
 output_merge_heap!(c14_out_merge_redeem_script, redeem_script, script2());
-//@ harness: c14_out_merge_witness_script class=B tier=thorough bound="script of exactly 2 symbolic bytes"
+//@ harness: c14_out_merge_witness_script class=B tier=quick bound="script of exactly 2 symbolic bytes"
 //@ clause: Output::merge: witness_script present in exactly one operand is present in the result whichever operand is merged into which
 output_merge_heap!(c14_out_merge_witness_script, witness_script, script2());
 //@ harness: c14_out_merge_blinder_index class=F tier=quick
 //@ clause: Output::merge keeps blinder_index present in either operand, order-insensitive
 output_merge_opt!(c14_out_merge_blinder_index, blinder_index, kani::any::<u32>());
-//@ harness: c14_out_merge_tap_internal_key class=F tier=thorough
+//@ harness: c14_out_merge_tap_internal_key class=F tier=quick
 //@ clause: Output::merge keeps tap_internal_key present in either operand, order-insensitive (x-only key comparison through the assumed libsecp model)
 output_merge_opt!(c14_out_merge_tap_internal_key, tap_internal_key, any_xonly(),
     kani::stub(zffi::secp256k1_xonly_pubkey_cmp, model_xonly_pubkey_cmp));
@@ -106,7 +106,7 @@ output_merge_opt!(c14_out_merge_tap_internal_key, tap_internal_key, any_xonly(),
 //@ clause: Output::merge keeps the blinding public key present in either operand, order-insensitive (key comparison through the assumed libsecp model)
 output_merge_opt!(c14_out_merge_blinding_key, blinding_key, any_btc_pubkey(),
     kani::stub(zffi::secp256k1_ec_pubkey_cmp, model_ec_pubkey_cmp));
-//@ harness: c14_out_merge_ecdh_pubkey class=F tier=thorough
+//@ harness: c14_out_merge_ecdh_pubkey class=F tier=quick
 //@ clause: Output::merge keeps the ECDH public key present in either operand, order-insensitive
 output_merge_opt!(c14_out_merge_ecdh_pubkey, ecdh_pubkey, any_btc_pubkey(),
     kani::stub(zffi::secp256k1_ec_pubkey_cmp, model_ec_pubkey_cmp));
@@ -114,7 +114,7 @@ output_merge_opt!(c14_out_merge_ecdh_pubkey, ecdh_pubkey, any_btc_pubkey(),
 //@ clause: Output::merge: value_rangeproof present in exactly one operand is present in the result whichever operand is merged into which
 output_merge_heap!(c14_out_merge_value_rangeproof, value_rangeproof, any_rangeproof3(),
     kani::stub(zffi::secp256k1_rangeproof_info, model_rangeproof_info));
-//@ harness: c14_out_merge_blind_value_proof class=B tier=thorough bound="3-byte range proof"
+//@ harness: c14_out_merge_blind_value_proof class=B tier=quick bound="3-byte range proof"
 //@ clause: Output::merge: blind_value_proof present in exactly one operand is present in the result whichever operand is merged into which
 output_merge_heap!(c14_out_merge_blind_value_proof, blind_value_proof, any_rangeproof3(),
     kani::stub(zffi::secp256k1_rangeproof_info, model_rangeproof_info));
@@ -139,7 +139,7 @@ fn c14_out_merge_amount_with_commitment() {
     assert!(a.amount == Some(v), "optional field present in either operand is present in the result");
     fgt(a);
 }
-//@ harness: c14_out_merge_asset_with_commitment class=F tier=thorough
+//@ harness: c14_out_merge_asset_with_commitment class=F tier=quick
 //@ clause: Output::merge: explicit `asset` present only in the second operand (both carry the same asset commitment) is present in the result (EXPECTED to fail: Output::merge never merges asset)
 #[kani::proof]
 #[kani::stub(zffi::secp256k1_generator_parse, model_generator_parse)]
